@@ -7,23 +7,35 @@
 # exit 0 = property held on everything explored, 1 = VIOLATION, 2 = machinery failure
 export GOFLAGS=-mod=mod GOPROXY=off GOSUMDB=off GOTOOLCHAIN=local
 export GOCACHE=${GOCACHE:-/root/.cache/go-build}
-cd /verif/sim || exit 2
-mkdir -p /verif/bin /verif/out /verif/evidence
-BIN=/verif/bin/simchain.$$
+ROOT=$(cd "$(dirname "$0")" && pwd)   # /verif, or a snapshot of it (vp run)
+export VERIF_DIR=$ROOT
+cd "$ROOT/sim" || exit 2
+mkdir -p "$ROOT/bin" "$ROOT/out" "$ROOT/evidence"
+BIN=$ROOT/bin/simchain.$$
+# The registered commands always build against /repo. VERIF_REPO=<dir> (calibration runs only, e.g. from a
+# `vp run --with-repo` snapshot) builds against another checkout through a temporary -modfile.
+REPO=${VERIF_REPO:-/repo}
 build() {
-  # go.sum = union of /repo's go.sum files (so dependency bumps in /repo are followed)
-  cat /repo/go.sum /repo/api/go.sum /repo/types/go.sum /repo/x/data/go.sum /repo/x/ecocredit/go.sum /repo/x/intertx/go.sum go.sum.extra 2>/dev/null | sort -u > go.sum.new && mv go.sum.new go.sum
-  if ! go build -tags verif -o "$BIN" ./cmd/simchain 2> /verif/out/build.$$.log; then
+  MODFLAG=""
+  if [ "$REPO" = /repo ]; then
+    # go.sum = union of /repo's go.sum files (so dependency bumps in /repo are followed)
+    cat /repo/go.sum /repo/api/go.sum /repo/types/go.sum /repo/x/data/go.sum /repo/x/ecocredit/go.sum /repo/x/intertx/go.sum 2>/dev/null | sort -u > go.sum.new.$$ && mv go.sum.new.$$ go.sum
+  else
+    sed "s#=> /repo/#=> $REPO/#" go.mod > $ROOT/out/go.alt.$$.mod
+    cat $REPO/go.sum $REPO/api/go.sum $REPO/types/go.sum $REPO/x/data/go.sum $REPO/x/ecocredit/go.sum $REPO/x/intertx/go.sum 2>/dev/null | sort -u > $ROOT/out/go.alt.$$.sum
+    MODFLAG="-modfile=$ROOT/out/go.alt.$$.mod"
+  fi
+  if ! go build $MODFLAG -tags verif -o "$BIN" ./cmd/simchain 2> $ROOT/out/build.$$.log; then
     echo "BUILD FAILED (machinery or /repo does not compile):" >&2
-    cat /verif/out/build.$$.log >&2
-    rm -f /verif/out/build.$$.log
+    cat $ROOT/out/build.$$.log >&2
+    rm -f $ROOT/out/build.$$.log
     exit 2
   fi
-  rm -f /verif/out/build.$$.log
+  rm -f $ROOT/out/build.$$.log
 }
-trap 'rm -f "$BIN"' EXIT
+trap 'rm -f "$BIN" $ROOT/out/go.alt.$$.mod $ROOT/out/go.alt.$$.sum' EXIT
 case "$1" in
-  build) build; cp "$BIN" /verif/bin/simchain; exit 0 ;;
+  build) build; cp "$BIN" "$ROOT/bin/simchain"; exit 0 ;;
   replay) build; shift; "$BIN" replay "$@"; exit $? ;;
   selftest) build; shift; "$BIN" selftest "$@"; exit $? ;;
   C[0-9][0-9]) build; "$BIN" check -prop "$1" -tier "${2:-quick}"; exit $? ;;
